@@ -40,6 +40,10 @@ class HarnessError(Exception):
     pass
 
 
+class GenerationFailure(Exception):
+    """The real parser/builder raised on a model and configuration the generator produced as valid."""
+
+
 class CompileFailure(Exception):
     def __init__(self, where, diagnostics):
         super().__init__(where)
@@ -111,8 +115,11 @@ class ModelBuild:
 
 def generate_files(spec, cfgspec, json_bytes):
     """Run the REAL parser and builder from /repo/src."""
-    fc = dznbuild.parse_json_ast(json_bytes)
-    return dznbuild.build(cfgspec, fc)
+    try:
+        fc = dznbuild.parse_json_ast(json_bytes)
+        return dznbuild.build(cfgspec, fc)
+    except Exception as exc:  # pylint: disable=broad-except
+        raise GenerationFailure(f'{type(exc).__module__}.{type(exc).__name__}: {exc}') from exc
 
 
 def prepare_model(spec, cfgspec, json_bytes, flavor='asan', scratch_root=None, files=None) -> ModelBuild:
